@@ -57,6 +57,8 @@ def src(t):
             return "%s(%s)" % (atom(t[1]), comp_inside(t[2][0]))
         return "%s(%s)" % (atom(t[1]), ", ".join(parts))
     if k == "un":
+        if t[1] == "neg" and t[2][0] == "const" and isinstance(t[2][1], int) and not isinstance(t[2][1], bool):
+            return "-(%s)" % src(t[2])      # keep it a unary operation: -4 alone is read as the literal
         return UOPS[t[1]][1] + atom(t[2])
     if k == "bin":
         return "%s %s %s" % (atom(t[2]), t[1], atom(t[3]))
@@ -249,7 +251,9 @@ def _from_ast(n, pairs):
         return ["star", f(n.value)]
     if isinstance(n, ast.UnaryOp):
         if isinstance(n.op, ast.USub) and isinstance(n.operand, ast.Constant) and isinstance(n.operand.value, int) \
-                and not isinstance(n.operand.value, bool):
+                and not isinstance(n.operand.value, bool) and n.operand.value > 0 \
+                and n.operand.end_col_offset - n.operand.col_offset == len(str(n.operand.value)) \
+                and n.col_offset + 1 == n.operand.col_offset:
             return ["const", -n.operand.value]
         return ["un", AST_UOPS[type(n.op)], f(n.operand)]
     if isinstance(n, ast.BinOp):
@@ -328,7 +332,7 @@ def cq_val(v):
         if "allfail" in v:
             return "(VAllFail VNone [%s])" % "; ".join("(%s, %s)" % (cq_str(a), cq_val(b)) for a, b in v["allfail"])
         if "ph" in v:
-            return "VPlaceholder"
+            return '(VStr "<Placeholder>")'   # no Python value is the PLACEHOLDER; seeing one is a defect
         if "slice" in v:
             return "(VSlice %s %s)" % (cq_val(v["slice"][0]), cq_val(v["slice"][1]))
     return "(VStr %s)" % cq_str("<other: %r>" % (v,))
